@@ -198,11 +198,27 @@ def _job(idx: int) -> List[Dict[str, Any]]:
                 bad = True
                 out.append(dict(rule="R20.5", verdict="VIOLATED", module=m_, function=fn_, construct=norm_text(ev.node, 100), line=ln_,
                                 message=f"{op} reads rating attribute '{ev.data['attr']}': per-rating state beyond (mu, sigma) influences the operation", detail={"entry": entry}))
+            if ev.kind == "write" and ev.data["origin"] == "input:player" and ev.data["field"] in ("mu", "sigma"):
+                tags = sorted(t for t in getattr(ev.data.get("val"), "prov", frozenset()) if t in ("ID", "NAME", "IDENTITY", "HASH"))
+                if tags:
+                    m_, fn_, ln_ = where(ev)
+                    bad = True
+                    out.append(dict(rule="R20.5", verdict="VIOLATED", module=m_, function=fn_, construct=norm_text(ev.node, 100), line=ln_,
+                                    message=f"the number {op} stores into rating.{ev.data['field']} depends on {tags} of the rating objects: a rating rebuilt from its stored (mu, sigma) "
+                                            "has a fresh id / another identity, so the later result differs from the one obtained with the original object", detail={"entry": entry}))
             if ev.kind == "write" and ev.data["origin"] == "input:player" and ev.data["field"] not in ("mu", "sigma"):
                 m_, fn_, ln_ = where(ev)
                 bad = True
                 out.append(dict(rule="R20.5", verdict="VIOLATED", module=m_, function=fn_, construct=norm_text(ev.node, 100), line=ln_,
                                 message=f"{op} writes rating attribute '{ev.data['field']}' (hidden per-rating state)", detail={"entry": entry}))
+        if op != "rate" and oc.returned:
+            from .c14 import _result_prov
+
+            tags = sorted(t for t in _result_prov(oc.I, oc.world.state, oc.result) if t in ("ID", "NAME", "IDENTITY", "HASH"))
+            if tags:
+                bad = True
+                inst("R20.5", "VIOLATED", entry, f"return value of {op}", M.lookup(op).node.lineno,
+                     f"the numbers {op} returns depend on {tags} of the rating objects: rebuilt ratings (fresh id, other identity) give another result")
         for u in oc.undecided:
             bad = True
             inst("R20.5", "UNDECIDED", entry, u[:100], 0, u)
